@@ -101,6 +101,15 @@ def run(ctx):
         run.instance(R2, {"fn": "check_ttl", "obligation": "single ordering comparison is last_confirmed_height >= slate.ttl_cutoff_height", "found": [(op, x.site()) for x, op in ordc]}, held=held)
         if not held:
             run.finding(Finding(R2, CHECK_TTL, "TTL boundary comparison is not `last_confirmed_height >= ttl_cutoff_height`", site=f.loc(), detail=str([(op, x.site()) for x, op in ordc])))
+        # the height compared is the wallet's, not only the active account's: last_confirmed_height is kept per
+        # account, an account that was never refreshed has observed nothing
+        if ordc:
+            x0 = ordc[0][0]
+            oo = fl.of_operand(x0.l) | fl.of_operand(x0.r)
+            wide = vf.has_call(oo, c.WB + "last_scanned_block") or vf.has_call(oo, c.WB + "acct_path_iter")
+            run.instance(R2, {"fn": "check_ttl", "obligation": "the observed height includes a wallet-wide source (last_scanned_block), not only the active account's last_confirmed_height"}, held=wide)
+            if not wide:
+                run.finding(Finding(R2, CHECK_TTL, "the cutoff is compared with the active account's last_confirmed_height only: a wallet that has observed the cutoff height under another account accepts the expired slate when a never-refreshed account is active", site=f.loc()))
         held_z = len(zc) == 1 and zc[0][1] in ("Ne", "Eq")
         run.instance(R2, {"fn": "check_ttl", "obligation": "cutoff is compared with 0 (0 = no cutoff)", "found": [(op, x.site()) for x, op in zc]}, held=held_z)
         if not held_z:
@@ -206,4 +215,24 @@ def run(ctx):
     run.rule(R4, "only a transaction that was never confirmed runs out of time: the expiry step skips entries that are confirmed (also by the kernel step of the same refresh) and entries that were confirmed once and reverted", floor=2)
     from .shared import expiry_step_scope
     expiry_step_scope(ctx, R4, ("confirmed", "reverted"))
+    R5 = "C17.R5"
+    run.rule(R5, "the cutoff recorded for the sender's own transaction is the one the sender set, not the one carried by the counterparty's reply", floor=1)
+    from .C11 import counterparty_slate_sites
+    SEL5 = c.LW + "internal::selection::"
+    lk5 = ctx.fn(SEL5 + "lock_tx_context")
+    if lk5 is None:
+        run.error("C17.R5: lock_tx_context not found")
+    else:
+        slp5 = c.param(lk5, "slate", "slate::Slate")
+        asg5 = vf.field_assignments(lk5, c.LW + "types::TxLogEntry", "ttl_cutoff_height")
+        from_slate = slp5 is not None and any(("arg", slp5) in vf.origins(lk5, st["r"]["o"]) for _b, st in asg5 if st["r"]["k"] == "use")
+        if not asg5:
+            run.error("C17.R5: assignment of TxLogEntry.ttl_cutoff_height not found in lock_tx_context")
+        elif not from_slate:
+            run.instance(R5, {"fn": "lock_tx_context", "obligation": "the recorded cutoff does not come from the slate parameter"}, held=True)
+        else:
+            bad5, seen5 = counterparty_slate_sites(ctx, lk5, slp5)
+            run.instance(R5, {"fn": "lock_tx_context", "obligation": "no call chain hands a counterparty-controlled slate to the reservation step that records the cutoff", "call_sites_examined": len(seen5), "violations": len(bad5)}, held=not bad5)
+            for cf, cb, csp, why, chain in bad5:
+                run.finding(Finding(R5, cf.id, "the sender's cutoff is recorded from %s: a reply that carries no (or a later) cutoff switches the sender's expiry off" % why.split(" (")[0], site=":".join(csp.split(":")[:2])))
     run.not_decided += ["full release bookkeeping after expiry (see C05)", "what 'observed height' means beyond the stored last_confirmed_height / node tip"]
